@@ -96,8 +96,14 @@ ARRAY_NAMES = {'std::array', 'array'}
 FSTREAM_NAMES = {'std::basic_fstream', 'std::fstream', 'std::basic_ifstream', 'std::ifstream', 'basic_fstream',
                  'basic_ifstream', 'std::basic_istream', 'std::istream', 'std::basic_ios', 'std::ios', 'std::basic_iostream',
                  'std::ios_base', 'std::basic_ostream', 'std::ostream', 'basic_istream', 'basic_ios', 'basic_ostream'}
+UMAP_NAMES = {'std::unordered_map', 'unordered_map'}
+UMAPITER_NAMES = {'std::__detail::_Node_iterator', 'std::__detail::_Node_const_iterator', 'std::__detail::_Node_iterator_base'}
 SSTREAM_NAMES = {'std::basic_stringstream', 'std::stringstream', 'std::__cxx11::basic_stringstream',
                  'std::basic_ostringstream', 'std::__cxx11::basic_ostringstream', 'std::ostringstream'}
+
+CHRONO_ALIASES = {'std::chrono::system_clock::time_point': 1000000000, 'std::chrono::steady_clock::time_point': 1000000000,
+                  'std::chrono::nanoseconds': 1000000000, 'std::chrono::microseconds': 1000000, 'std::chrono::milliseconds': 1000,
+                  'std::chrono::seconds': 1, 'std::chrono::system_clock::duration': 1000000000}
 
 class Translator:
     def __init__(self, cache_dir, opts=None):
@@ -130,6 +136,8 @@ class Translator:
         self.canary_fns = set()
         self.virtual_dispatch = {}
         self._tu_index = {}
+        self.generated_helpers = []
+        self.labels = {}
         self._complete_cache = {}
         self.switch_slice = {}   # (cname, switch ordinal) -> (slice index, number of slices)
         self.switch_groups = {}
@@ -184,6 +192,8 @@ class Translator:
     def _index(self, node, parent, filt, qprefix=None):
         nid = node.get('id')
         kind = node.get('kind')
+        if kind == 'LabelStmt' and node.get('declId'):
+            self.labels[node['declId']] = node.get('name')
         if 'loc' in node:
             self._upd_loc(node['loc']); node['_locline'] = self._cur_line
         if 'range' in node:
@@ -195,7 +205,7 @@ class Translator:
             if kind in ('CXXRecordDecl', 'ClassTemplateSpecializationDecl', 'EnumDecl', 'FunctionDecl', 'CXXMethodDecl',
                         'CXXConstructorDecl', 'CXXDestructorDecl', 'CXXConversionDecl', 'FieldDecl', 'VarDecl',
                         'ParmVarDecl', 'EnumConstantDecl', 'NamespaceDecl', 'TypeAliasDecl', 'TypedefDecl',
-                        'FunctionTemplateDecl', 'BindingDecl', 'DecompositionDecl'):
+                        'FunctionTemplateDecl', 'BindingDecl', 'DecompositionDecl', 'LabelDecl'):
                 # keep the richer node (a definition beats a declaration)
                 old = self.decl.get(nid)
                 if old is None or len(node.get('inner', [])) >= len(old.get('inner', [])):
@@ -229,6 +239,7 @@ class Translator:
             self.aliases[qprefix + '::' + node['name']] = target
         if kind in ('FunctionDecl', 'CXXMethodDecl', 'CXXConstructorDecl', 'CXXDestructorDecl', 'CXXConversionDecl'):
             if any(c.get('kind') == 'CompoundStmt' for c in node.get('inner', [])) and \
+               ('mangledName' in node) and \
                not (parent is not None and parent.get('kind') == 'FunctionTemplateDecl' and 'mangledName' not in node) and \
                not (parent is not None and parent.get('kind') == 'CXXRecordDecl' and parent.get('definitionData', {}).get('isLambda')):
                 self.fn_nodes.append(node)
@@ -386,11 +397,14 @@ class Translator:
         if n in ITER_NAMES: return 'iter'
         if n in REVITER_NAMES: return 'riter'
         if n in ARRAY_NAMES: return 'stdarray'
+        if n in UMAP_NAMES and t.args and self.category(t.args[0]) == 'str': return 'umap'
+        if n in UMAPITER_NAMES: return 'umapiter'
         if n in FSTREAM_NAMES: return 'fstream'
         if n in SSTREAM_NAMES: return 'sstream'
         if n in ('std::nullopt_t',): return 'nullopt'
         if n in ('std::pair', 'pair'): return 'pair'
         if n in ('std::atomic', 'atomic'): return 'atomic'
+        if n in ('std::chrono::duration', 'std::chrono::time_point', 'duration', 'time_point') or n in CHRONO_ALIASES: return 'chrono'
         if n in self.enums: return 'enum'
         if n in self.records: return 'record'
         full = self.complete_name(n)
@@ -417,6 +431,21 @@ class Translator:
         r = c[0] if len(c) == 1 else None
         self._complete_cache[n] = r
         return r
+
+    def chrono_den(self, t):
+        """ticks per second of a std::chrono duration / time_point type (ratio<1, D>), None if not chrono"""
+        t = t.strip_ref()
+        if t.kind != 'named' or self.category(t) != 'chrono': return None
+        if t.name in CHRONO_ALIASES: return CHRONO_ALIASES[t.name]
+        if t.name.endswith('time_point'):
+            return self.chrono_den(t.args[1]) if len(t.args) > 1 else 1000000000
+        if len(t.args) < 2: return 1
+        r = t.args[1]
+        if r.kind == 'named' and r.name in ('std::ratio', 'ratio') and len(r.args) >= 1:
+            num = int(r.args[0].name); den = int(r.args[1].name) if len(r.args) > 1 else 1
+            if num != 1: raise Unsupported('chrono ratio with numerator %d' % num)
+            return den
+        raise Unsupported('chrono period %r' % r)
 
     def ctype(self, tnode_or_str):
         return self.ctype_t(self.tparse(tnode_or_str))
@@ -452,11 +481,18 @@ class Translator:
             m = self.mangle_t(t.args[0]); self.inst('RITER_DECL', self.ctype_t(t.args[0]), m); return 'struct riter_' + m
         if cat == 'stdarray':
             raise Unsupported('std::array by value outside a declaration: %r' % t)
+        if cat == 'umap':
+            m = self.mangle_t(t.args[1]); self.inst('UMAP_DECL', self.ctype_t(t.args[1]), m); return 'struct umap_' + m
+        if cat == 'umapiter':
+            pair = t.args[0]
+            m = self.mangle_t(pair.args[1]); self.inst('UMAP_DECL', self.ctype_t(pair.args[1]), m); return 'struct umap_%s_pair *' % m
         if cat == 'fstream': return 'vfile'
         if cat == 'sstream': return 'strbuf'
         if cat == 'atomic':
             self.dropped.add('std::atomic<T> -> T (sequential semantics)')
             return self.ctype_t(t.args[0])
+        if cat == 'chrono':
+            return 'long'       # tick count; the unit is tracked by the translator from the type (chrono_den)
         if cat == 'enum':
             self.use_enum(n); return 'int'
         if cat == 'record':
